@@ -212,6 +212,8 @@ pub struct VerifVmState {
     pub gc_by_opcode: Vec<u64>,
     /// called before each dispatch (after counting)
     pub on_dispatch: Option<DispatchCallback>,
+    /// set by a monitor to make the interpreter stop before the next instruction
+    pub abort_requested: std::cell::Cell<bool>,
 }
 
 impl VerifVmState {
